@@ -169,6 +169,7 @@ def tlc(workdir, module, cfg, workers=None, timeout=600, extra=None, files=None,
     if heap:
         jo += f" -Xmx{heap}"
     jo += " -Xss64m"
+    jo += f" -Djava.io.tmpdir={meta}"        # TLC unpacks helper files into java.io.tmpdir (/tmp/tlc-*): keep them inside the scratch directory
     env["JAVA_TOOL_OPTIONS"] = (env.get("JAVA_TOOL_OPTIONS", "") + " " + jo).strip()
     t0 = time.time()
     try:
